@@ -93,6 +93,8 @@ func nativeReplay(prop, pkg string, runs []ReplayRun, file string) (map[string]s
 	ob, _ := json.Marshal(ov)
 	os.WriteFile(ovFile, ob, 0o644)
 	defer os.Remove(ovFile)
+	// a stable copy for replaying a counterexample by hand (MANIFEST replay_cmd_template)
+	os.WriteFile(filepath.Join(work, "overlay.json"), ob, 0o644)
 
 	env := append(goEnv(), "VERIF_REPLAY="+file, fmt.Sprintf("VERIF_TIMESCALE=%d", replayTimeScale))
 	race := false
